@@ -97,8 +97,10 @@ def _export(op, tl, desc_obj, atts, exists, mode, nice, csvmod, cont_mod, tw_mod
         if op == 'tracts_to_csv':
             tl.tracts_to_csv(atts, fp, mode, nice_headers=nice)
         else:
-            w = tw_mod.TractWriter(atts, fp, mode, nice_headers=nice)
-            n = w.write(tl)
+            extra = getattr(_export, 'extra', None)       # None | 'plus' (plus_cols) | 'uid'
+            w = tw_mod.TractWriter(list(atts), fp, mode, nice_headers=nice, plus_cols=['Report Date'] if extra == 'plus' else None,
+                                   uid=1 if extra == 'uid' else None)
+            n = w.write(tl, plus_cols=['2020-01-01'] if extra == 'plus' else None)
             w.close()
             if n != len(tl):
                 return 'rows', 'BAD-COUNT', []
@@ -148,7 +150,13 @@ def make_target(names, nmax, ops):
         op = choose(op, ops)
         idx = [choose(a, range(len(names))) for a in idx]
         atts = [names[i] for i in idx]
-        nice = choose(nice, range(4)) if writers else 0
+        nice = choose(nice, range(6)) if writers else 0
+        # header options 4 / 5: plain headers plus the writer's additional columns (plus_cols / uid); TractWriter only
+        extra = None
+        if nice >= 4:
+            extra = ('plus', 'uid')[nice - 4] if op == 'tractwriter' else None
+            nice = 0
+        _export.extra = extra
         d = corpus(ci)
         tl = d.tracts
         mode = 'a' if append else 'w'
@@ -175,6 +183,15 @@ def make_target(names, nmax, ops):
                 return False
             if len(rows) != len(tl):
                 return False
+            if extra is not None:
+                # one additional cell per row (the given value / a generated id) and one additional header
+                if any(len(r) != len(atts) + 1 for r in rows) or (extra == 'plus' and any(r[-1] != '2020-01-01' for r in rows)):
+                    return False
+                rows = [list(r)[:-1] for r in rows]
+                if header is not None:
+                    if list(header)[-1:] != [('Report Date', 'UID')[extra == 'uid']]:
+                        return False
+                    header = list(header)[:-1]
             if [list(r) for r in rows] != [[cell(v) for v in e] for e in exp]:
                 return False
             if header is not None:
@@ -215,7 +232,7 @@ def ob_export(ob):
     target = make_target(names, ob.params['nmax'], ops)
     st = explore(target, timeout=ob.params.get('cap', 600), max_viol=ob.params.get('max_viol', 40))
     info = dict(bound=f'{len(CORPUS)} corpus descriptions x attribute lists of length 1..{ob.params["nmax"]} over {len(names)} '
-                      f'names x export paths {ops} x file exists/not x mode w/a x 4 header options',
+                      f'names x export paths {ops} x file exists/not x mode w/a x 4 header options (+ plus_cols / uid columns for TractWriter)',
                 samples=[{'attributes': names[:6] + ['...'], 'ops': ops}])
 
     def mk(vs):
@@ -230,7 +247,7 @@ def ob_export(ob):
                                  'c19_export', {'ci': int(a['ci']) if 0 <= a['ci'] < len(CORPUS) - 1 else len(CORPUS) - 1,
                                                 'atts': atts, 'op': op, 'exists': bool(a.get('exists', False)),
                                                 'append': bool(a.get('append', False)),
-                                                'nice': (int(a['nice']) if 0 <= a['nice'] < 3 else 3) if 'nice' in a else 0}))
+                                                'nice': (int(a['nice']) if 0 <= a['nice'] < 5 else 5) if 'nice' in a else 0}))
         return out
     return from_explore(st, info, mk)
 
